@@ -1040,6 +1040,15 @@ fn post_mutate(rng: &mut Rng, m: &mut GenModel, lim: &GenLimits) {
             };
         }
     }
+    // helper rows: a name that starts with `__` is legal and is left out of the reported
+    // row activities, wherever the row stands among the others
+    if rng.chance(1, 6) {
+        for (i, r) in m.rows.iter_mut().enumerate() {
+            if !r.name.is_empty() && rng.chance(1, 3) {
+                r.name = format!("__h{i}");
+            }
+        }
+    }
 }
 
 /// Draws a family with the given weights (aligned with `ALL_FAMILIES`).
